@@ -171,17 +171,91 @@ def policy_solve(P, R, absf, g, pol, states):
     return full(V), full(N)
 
 
+NEAR_ONE = "1048575/1048576"          # 1 - 2^-20
+
+
+def gen_repr(rng, chain=False):
+    """input representation / planner options of the impl runner (harness/impl/c04_impl.py)"""
+    rp = {"labels": rng.choice(["int"] * 5 + ["str", "str", "tuple", "tuple", "falsy", "falsy"]),
+          "dist_objects": rng.random() < .3, "actions_tuple": rng.random() < .7,
+          "init": rng.choice(["object", "object", "callable", "initial_state"]),
+          "int_numbers": rng.random() < .25, "no_listener": rng.random() < .15}
+    if rng.random() < .05:
+        rp["seed_none"] = True
+    if rng.random() < .06:
+        rp["max_trial_length"] = rng.choice([1, 2, 5])
+    if rp["labels"] != "falsy" and rng.random() < (.5 if chain else .2):
+        rp["touch_views"] = True             # tabular views sort the labels: not with mixed-type labels
+    return rp
+
+
+def modify_mdp(rng, mc):
+    """boundary modifiers applied BEFORE optimum / heuristic are computed; returns feature tags"""
+    tags = []
+    n = mc["n"]
+    nonabs = [s for s in range(n) if not mc["absorbing"][s]]
+    if nonabs and rng.random() < .08:          # large magnitudes
+        K = rng.choice([1000, 2**20])
+        mc["reward"] = {k: str(F(r) * K) for k, r in mc["reward"].items()}
+        tags.append("scaled_rewards")
+    if nonabs and rng.random() < .10:          # probabilities 2^-30 / 2^-20 next to 1 - that
+        rows = [k for k, row in mc["trans"].items() if not mc["absorbing"][int(k.split(",")[0])]
+                and len([1 for _, pr in row if F(pr) != 0]) == 2]
+        if rows:
+            k = rng.choice(rows)
+            old = [list(x) for x in mc["trans"][k]]
+            t = F(1, 2**rng.choice([20, 30]))
+            it = iter(rng.sample([t, 1 - t], 2))
+            mc["trans"][k] = [[ns, (str(next(it)) if F(pr) != 0 else "0")] for ns, pr in old]
+            P, R, av, absf, ini = arrays(mc)
+            W = max_steps(P, av, absf)
+            if W is None or max(W) > 300:      # would make single trials astronomically long
+                mc["trans"][k] = old
+            else:
+                tags.append("tiny_probability")
+    cand = [s for s in nonabs if len(mc["actions"][s]) >= 2]
+    if cand and rng.random() < .10:            # two actions whose values differ by 2^-30: must be told apart
+        s = rng.choice(cand)
+        a, b = rng.sample(mc["actions"][s], 2)
+        row = mc["trans"]["%d,%d" % (s, a)]
+        mc["trans"]["%d,%d" % (s, b)] = [list(x) for x in row]
+        for key in [k for k in mc["reward"] if k.startswith("%d,%d," % (s, b))]:
+            del mc["reward"][key]
+        pos = [ns for ns, pr in row if F(pr) != 0]
+        for ns in pos:
+            r = F(mc["reward"].get("%d,%d,%d" % (s, a, ns), "0"))
+            if ns == pos[0]:
+                r -= F(1, 2**30)
+            if r != 0:
+                mc["reward"]["%d,%d,%d" % (s, b, ns)] = str(r)
+        tags.append("near_tie")
+    return tags
+
+
 def gen_case(rng, tier):
-    gamma = "1" if rng.random() < .35 else None
+    r = rng.random()
+    gamma = "1" if r < .32 else (NEAR_ONE if r < .40 else None)
     nmax = 5 if tier == "quick" else 7
-    mc = gen_mdp.gen_mdp(rng, nmax=nmax, amax=3, gamma=gamma, proper=True, min_states=2)
+    if rng.random() < .04:
+        nmax = 1                                  # single (absorbing) state
+    mc = gen_mdp.gen_mdp(rng, nmax=nmax, amax=3, gamma=gamma, proper=True, min_states=min(2, nmax),
+                         nonpos=(gamma == NEAR_ONE))
+    tags = modify_mdp(rng, mc)
     P, R, av, absf, ini = arrays(mc)
     Vs = exact_vstar(P, R, av, absf, F(mc["gamma"]))
     kind = rng.choice(KINDS)
     h = make_heuristic(rng, kind, mc, Vs, absf)
-    return {"mdp": mc, "heuristic": [str(x) for x in h], "kind": kind, "margin": rng.choice(MARGINS),
+    margin = rng.choice(MARGINS)
+    if rng.random() < .10:
+        margin = rng.choice(["1", "5"])           # threshold 1 (also passed as an int)
+    if "scaled_rewards" in tags and margin == "1/10000":
+        margin = "1/100"
+    case = {"mdp": mc, "heuristic": [str(x) for x in h], "kind": kind, "margin": margin,
             "seed": rng.randint(0, 4 if tier == "quick" else 29), "randomize": rng.random() < .5,
-            "iterations": 4000, "max_log": 600 if tier == "quick" else 1500}
+            "iterations": 4000, "max_log": 600 if tier == "quick" else 1500, "repr": gen_repr(rng), "tags": tags}
+    if rng.random() < .04:
+        case["iterations"] = rng.choice([1, 2])   # trial cap hit: soundness clauses only
+    return case
 
 
 def perturb(rng, mc):
@@ -236,7 +310,8 @@ def gen_chain(rng, tier):
             h = [(F(rng.choice([1, 5, 40])) if mA["absorbing"][s] else h[s]) for s in range(n)]
     return {"chain": [mA, mB, mA], "mdp": mA, "heuristic": [str(up_double(x)) for x in h], "kind": kind,
             "margin": rng.choice(MARGINS), "seed": rng.randint(0, 4 if tier == "quick" else 29),
-            "randomize": rng.random() < .5, "iterations": 4000, "max_log": 600 if tier == "quick" else 1500}
+            "randomize": rng.random() < .5, "iterations": 4000, "max_log": 600 if tier == "quick" else 1500,
+            "repr": dict(gen_repr(rng, chain=True), max_trial_length=None, seed_none=False), "tags": []}
 
 
 def flatten(cases, impl):
@@ -382,6 +457,10 @@ def plain_op(op):
     return "(OUpd %s)" % nat(op[1]) if op[0] == "U" else "(OAbs %s)" % nat(op[1])
 
 
+def is_soft(case):
+    return case["iterations"] <= 2 or (case.get("repr") or {}).get("max_trial_length") is not None
+
+
 # ---------------------------------------------------------------------------------------------
 # exact oracle for the property's clauses (violation search)
 # ---------------------------------------------------------------------------------------------
@@ -391,14 +470,10 @@ def oracle(p, case, res):
     n = p.n
     E = lambda f: sum(p.ini[s] * (F(0) if p.absf[s] else f[s]) for s in range(n))
     unsolved = [s for s in range(n) if p.ini[s] > 0 and not p.solved[s]]
-    if unsolved:
+    soft = is_soft(case)         # tiny trial cap / max_trial_length: completion is not promised
+    if unsolved and not soft:
         out.append(("initial-state-not-labelled-within-trial-cap", {"states": unsolved, "trials": res["trials"]}))
-        for s in range(n):
-            if p.touched[s] and not p.absf[s] and p.V[s] < p.Vs[s] - p.tiny:
-                out.append(("value-estimate-below-optimal", {"state": s, "V": str(p.V[s]), "optimal": str(p.Vs[s])}))
-                break
-        return out
-    if res["trials"] >= case["iterations"]:
+    if res["trials"] >= case["iterations"] and not soft and not unsolved:
         zero = [s for s in range(n) if any(int(x) == s and F(pp) == 0 for x, pp in case["mdp"]["init"]) and not p.solved[s]]
         out.append(("zero-probability-initial-state-never-labelled" if zero else "runs-all-trials-although-initial-states-solved",
                     {"states": zero, "trials": res["trials"]}))
@@ -423,6 +498,8 @@ def oracle(p, case, res):
                     {"initial_value": str(p.iv), "expected": str(EV), "absorbing_initial_states": absinit}))
     if p.Vret is None:
         out.append(("returned-policy-not-a-distribution-over-available-actions", {}))
+        return out
+    if unsolved:                 # margin clauses speak about completed runs
         return out
     Vs0, Vret0, Nret0 = E(p.Vs), E(p.Vret), E(p.Nret)
     if p.iv - Vs0 > p.margin * Nret0 + 2 * p.tiny:
@@ -489,15 +566,17 @@ def run(ctx):
     cnt = {k: 0 for k in ["cases", "cert_checks", "replays", "replay_ops", "predictions", "predicted_calls",
                           "nonmonotone", "nonmonotone_cert_ok", "nonmonotone_cert_rejects", "nonadmissible_skipped",
                           "returned_policy_differs_from_labelled_greedy", "untouched_labelled_states",
-                          "recomputed_greedy_differs_from_recorded_action", "regression_cases", "replay_skipped_long", "chain_steps", "chain_later_steps",
+                          "recomputed_greedy_differs_from_recorded_action", "regression_cases", "replay_skipped_long", "chain_steps", "chain_later_steps", "soft_unfinished",
                           "absorbing_initial_mass", "zero_prob_initial_entry", "converged_attr_missing",
                           "absorbing_untouched_reads_heuristic", "prediction_near_margin", "log_overflow",
                           "trials_total", "checks_failed_then_updated"]}
-    feats, kinds, margins, distinct = {}, {}, {}, set()
+    feats, kinds, margins, distinct, variants = {}, {}, {}, set(), {}
     # exact replay cost: rationals grow with every update; Coq's gcd is quadratic in their length.
     # Measured: dyadic gamma (everything stays dyadic) ~2 s at 150 ops; gamma 9/10, 19/20: 5 s at 100 ops,
     # 17 s at 200.  Longer logs are covered by the certificate only (counted in replay_skipped_long).
     def maxreplay(case):
+        if case["mdp"]["gamma"] == NEAR_ONE or "tiny_probability" in case.get("tags", ()):
+            return 30                             # 20-30 extra bits per update
         dy = F(case["mdp"]["gamma"]).denominator in (1, 2, 4, 8)
         return (250 if tier == "quick" else 300) if dy else 100
     for i, (case, res) in enumerate(zip(cases, impl)):
@@ -523,6 +602,14 @@ def run(ctx):
         cnt["trials_total"] += res["trials"]
         cnt["nonmonotone"] += int(not p.mono_tol)
         cnt["regression_cases"] += int(case["kind"].startswith("regression"))
+        rp = case.get("repr") or {}
+        for tg in list(case.get("tags", ())) + ["labels_" + rp.get("labels", "int")] + [k for k in
+                  ("dist_objects", "int_numbers", "no_listener", "seed_none", "touch_views") if rp.get(k)] + \
+                  (["max_trial_length"] if rp.get("max_trial_length") is not None else []) + \
+                  (["init_" + rp.get("init", "object")]) + (["iterations_cap"] if case["iterations"] <= 2 else []) + \
+                  (["gamma_near_one"] if case["mdp"]["gamma"] == NEAR_ONE else []) + (["margin_ge_1"] if F(case["margin"]) >= 1 else []) + \
+                  (["single_state"] if p.n == 1 else []):
+            variants[tg] = variants.get(tg, 0) + 1
         cnt["chain_steps"] += int(steps[i] is not None)
         cnt["chain_later_steps"] += int(bool(steps[i]))
         cnt["recomputed_greedy_differs_from_recorded_action"] += int(any(
@@ -578,6 +665,9 @@ def run(ctx):
             if not p.mono_tol:
                 cnt["nonmonotone_cert_ok" if not [c for c in failed if c != "c_ret"] else "nonmonotone_cert_rejects"] += 1
             hard = [c for c in failed if c != "c_ret"]
+            if is_soft(case) and any(p.ini[s] > 0 and not p.solved[s] for s in range(p.n)):
+                cnt["soft_unfinished"] += 1        # certificate speaks about completed runs; replay/oracle still judge it
+                hard = []
             if hard and not concrete:
                 ctx.violation(pre + "certificate-rejects:" + "+".join(hard),
                               dict(base, failed_certificate_clauses=failed, monotone_heuristic=p.mono_tol,
@@ -625,7 +715,7 @@ def run(ctx):
                 "distinct = structural hash of (MDP, heuristic, margin, seed, option, chain step); non-trivial = at least one "
                 "non-absorbing state (all cases)" % (5 if tier == "quick" else 7),
         "samples": [{"case": cases[0], "impl": {k: impl[0].get(k) for k in ("V", "solved", "touched", "greedy", "initial_value", "trials", "ops")}}] if cases else [],
-        "heuristic_kinds": kinds, "margins": margins, "input_features": feats, **cnt,
+        "heuristic_kinds": kinds, "margins": margins, "input_features": feats, "variants": variants, **cnt,
     })
 
 
